@@ -407,6 +407,75 @@ def announce_check():
     return viols
 
 
+def announce_family(max_len=3):
+    """register_once over EVERY sequence (length <= max_len) of region-announcing events of all four kinds, with addresses
+    and region handles that collide in every way (same handle at a new address, new handle at a known address, handle of a
+    region known since login, repeated announcements).  Seeds are a function of the address, so an announcement never names
+    another region's seed.  The statement, evaluated on the real handler: after the response was processed there is exactly
+    one region per announced address (none lost, none doubled), the regions known before are all still there once, and the
+    events reach the viewer unchanged."""
+    import itertools
+    import mitmproxy.http
+    from hippolyzer.lib.base import llsd
+    from hippolyzer.lib.base.datatypes import UUID
+    from hippolyzer.lib.base.message.message import Message, Block
+    from hippolyzer.lib.base.message.llsd_msg_serializer import LLSDMessageSerializer
+    from hippolyzer.lib.proxy.http_flow import HippoHTTPFlow
+    ser = LLSDMessageSerializer()
+
+    def eac(p):
+        return {"message": "EstablishAgentCommunication",
+                "body": {"agent-id": "x", "sim-ip-and-port": "127.0.0.1:%d" % p, "seed-capability": "http://sim1.test/seed/n%d" % p}}
+
+    def ens(h, p):
+        return ser.serialize(Message("EnableSimulator", Block("SimulatorInfo", Handle=h, IP="127.0.0.1", Port=p)), True)
+
+    def tpf(name, block, h, p):
+        return ser.serialize(Message(name, Block("AgentData", AgentID=UUID(int=3), SessionID=UUID(int=1)) if name == "CrossedRegion"
+                                     else Block("Info", AgentID=UUID(int=3), LocationID=4, SimIP="127.0.0.1", SimPort=p, RegionHandle=h,
+                                                SeedCapability="http://sim1.test/seed/n%d" % p, SimAccess=13, TeleportFlags=0),
+                                     *([Block("RegionData", SimIP="127.0.0.1", SimPort=p, RegionHandle=h,
+                                              SeedCapability="http://sim1.test/seed/n%d" % p),
+                                        Block("Info", Position=(1.0, 2.0, 3.0), LookAt=(1.0, 0.0, 0.0))] if name == "CrossedRegion" else [])), True)
+
+    letters = [("EAC31", 31, eac(31)), ("EAC32", 32, eac(32)), ("ES77@31", 31, ens(77, 31)), ("ES77@32", 32, ens(77, 32)),
+               ("ES78@32", 32, ens(78, 32)), ("ES77@33", 33, ens(77, 33)), ("ES6@34", 34, ens(6, 34)),
+               ("TF77@35", 35, tpf("TeleportFinish", "Info", 77, 35)), ("CR5@36", 36, tpf("CrossedRegion", "RegionData", 5, 36))]
+    viols, n = [], 0
+    for k in range(1, max_len + 1):
+        for seq in itertools.product(letters, repeat=k):
+            n += 1
+            names = [x[0] for x in seq]
+            try:
+                w = World()
+                before = [r.circuit_addr for r in w.session.regions]
+                if w.apply(("Q", 0, None)) != "fwd":
+                    continue
+                a, state = w.pending[0].pop()
+                flow = HippoHTTPFlow.from_state(copy.deepcopy(state), w.sm)
+                evs = [copy.deepcopy(x[2]) for x in seq]
+                flow.flow.response = mitmproxy.http.Response.make(200, llsd.format_xml({"events": evs, "id": 900}),
+                                                                  {"Content-Type": "application/llsd+xml"})
+                w.em._handle_response(flow)
+                parsed = llsd.parse_xml(flow.response.content)
+                if [e["message"] for e in parsed["events"]] != [e["message"] for e in evs]:
+                    viols.append({"clause": "region-announcing events are forwarded unchanged", "class": "announce-events-changed",
+                                  "announcements": names})
+                addrs = [r.circuit_addr for r in w.session.regions]
+                want = list(before)
+                for _, p, _e in seq:
+                    if ("127.0.0.1", p) not in want:
+                        want.append(("127.0.0.1", p))
+                if sorted(addrs) != sorted(want):
+                    viols.append({"clause": "register_once: every announced region is registered exactly once (one region per announced address)",
+                                  "class": "announced-region-count", "announcements": names,
+                                  "got": sorted(a[1] for a in addrs), "want": sorted(a[1] for a in want)})
+            except Exception as e:
+                viols.append({"clause": "register_once", "class": "exception:" + type(e).__name__, "announcements": names,
+                              "detail": str(e)[:200]})
+    return viols, n
+
+
 # --------------------------------------------------------------------------- generators
 
 BODIES = [None, (7, [(0, 2)]), (8, [(0, 1)]), (9, [(0, 1), (0, 2), (0, 4)]), (10, [])]
@@ -627,7 +696,17 @@ def _correspond(ctx):
             res2.impl_violations.append(v)
     except Exception as e:
         res2.impl_violations.append({"clause": "register_once", "class": "exception:" + type(e).__name__, "detail": str(e)[:200]})
-    res2.evaluations = len(lines) + nv + 1
+    n_ann = 0
+    try:
+        av, n_ann = announce_family(ctx.pick(3, 4))
+        seen_a = set()
+        for v in av:
+            if v["class"] not in seen_a:
+                seen_a.add(v["class"])
+                res2.impl_violations.append(v)
+    except Exception as e:
+        res2.impl_violations.append({"clause": "register_once", "class": "exception:" + type(e).__name__, "detail": str(e)[:200]})
+    res2.evaluations = len(lines) + nv + 1 + n_ann
     res2.distinct_nontrivial = nt2 + nv
     res2.distribution = {"histories": nh, "viewer_runs": nv, "violation_classes": {str(k): n for k, n in seen2.items()}}
     res2.samples = [{"ops": [list(o) for o in meta[0]][:10], "result": expect[0][:300]}] if meta else []
@@ -714,6 +793,13 @@ def replay(ctx, case):
         vs = announce_check()
         if vs:
             return True, vs[0]
+        if "announcements" in case:
+            av, _ = announce_family(3)
+            for v in av:
+                if v.get("announcements") == case["announcements"]:
+                    return True, v
+            if av:
+                return True, av[0]
     finally:
         logging.disable(logging.NOTSET)
     return False, "holds"
